@@ -16,7 +16,9 @@
 #include <fcntl.h>
 #include <fstream>
 #include <iostream>
+#include <map>
 #include <random>
+#include <tuple>
 #include <unistd.h>
 #include <unordered_map>
 
@@ -769,6 +771,139 @@ static int record(const json &plan) {
     return 0;
 }
 
+// ---------------------------------------------------------------- recordpair (C06, code -> spec)
+// Pairs of objects built by random histories that often denote the same graph; one record
+// per comparison for PairTrace.tla.
+static int recordpair(const json &plan) {
+    const std::string group = plan.at("group");
+    const size_t famIdx = plan.value("family_index", 0);
+    const unsigned seed = plan.value("seed", 1u);
+    const int pairs = plan.value("pairs", 40);
+    const std::string kind = plan.at("kind");
+    const bool directed = plan.at("directed");
+    installCrashNote(plan.value("crash_note", std::string()));
+    auto &facs = registry()[group];
+    if (famIdx >= facs.size())
+        return 2;
+    std::mt19937 rng(seed);
+    auto pick = [&](size_t n) { return (size_t)(rng() % n); };
+    size_t records = 0, equalPairs = 0;
+    auto emit = [&](IObj &x, IObj &y, const char *how) {
+        json a = x.abstractGraph(), b = y.abstractGraph();
+        bool e12 = x.equals(y), e21 = y.equals(x);
+        if (a == b)
+            ++equalPairs;
+        std::cout << json({{"how", how}, {"a", a}, {"b", b}, {"e12", e12}, {"e21", e21}, {"e11", x.equals(x)},
+                           {"e22", y.equals(y)}, {"ne12", x.differs(y)}, {"ne21", y.differs(x)}})
+                         .dump()
+                  << "\n";
+        ++records;
+    };
+    for (int p = 0; p < pairs; ++p) {
+        const int n = 4 + (int)pick(p % 5 == 4 ? 21 : 6);
+        // a list of edits: (i, j, attribute)
+        std::vector<std::tuple<int, int, int>> edits;
+        const int m = n + (int)pick(2 * n);
+        for (int k = 0; k < m; ++k)
+            edits.emplace_back((int)pick(n), (int)pick(n), (int)pick(3) + (kind == "multi" ? 1 : 0));
+        auto add = [&](IObj &o, int i, int j, int a, bool flip) {
+            if (flip && !directed)
+                std::swap(i, j);
+            json c;
+            if (kind == "multi")
+                c = {{"op", "setEdgeMultiplicity"}, {"i", i}, {"j", j}, {"k", a}};
+            else if (kind == "weighted")
+                c = {{"op", "setEdgeWeight"}, {"i", i}, {"j", j}, {"w", a - 1}};
+            else if (kind == "labeled") {
+                // same final label whatever the order: add (no-op when present) then set
+                o.apply({{"op", "addEdge"}, {"i", i}, {"j", j}, {"l", a}, {"f", false}});
+                c = {{"op", "setEdgeLabel"}, {"i", i}, {"j", j}, {"l", a}, {"f", false}};
+            } else
+                c = {{"op", "addEdge"}, {"i", i}, {"j", j}, {"l", 0}, {"f", false}};
+            o.apply(c);
+        };
+        std::unique_ptr<IObj> x = facs[famIdx](), y = facs[famIdx]();
+        x->apply({{"op", "resize"}, {"k", n}});
+        y->apply({{"op", "resize"}, {"k", n / 2}});
+        y->apply({{"op", "resize"}, {"k", n}}); // grown in two steps
+        // the last edit of each pair wins: apply x in order; y in a different order that keeps
+        // the last edit of every pair last
+        for (auto &e : edits)
+            add(*x, std::get<0>(e), std::get<1>(e), std::get<2>(e), false);
+        std::vector<size_t> order(edits.size());
+        for (size_t k = 0; k < order.size(); ++k)
+            order[k] = k;
+        std::map<std::pair<int, int>, size_t> last;
+        for (size_t k = 0; k < edits.size(); ++k) {
+            int i = std::get<0>(edits[k]), j = std::get<1>(edits[k]);
+            if (!directed && i > j)
+                std::swap(i, j);
+            last[{i, j}] = k;
+        }
+        std::shuffle(order.begin(), order.end(), rng);
+        for (size_t k : order) { // everything that is not a pair's last edit first ...
+            int i = std::get<0>(edits[k]), j = std::get<1>(edits[k]);
+            int ci = i, cj = j;
+            if (!directed && ci > cj)
+                std::swap(ci, cj);
+            if (last[{ci, cj}] != k)
+                add(*y, i, j, std::get<2>(edits[k]), pick(2));
+        }
+        for (size_t k : order) { // ... then the last edits, in any order
+            int i = std::get<0>(edits[k]), j = std::get<1>(edits[k]);
+            int ci = i, cj = j;
+            if (!directed && ci > cj)
+                std::swap(ci, cj);
+            if (last[{ci, cj}] == k)
+                add(*y, i, j, std::get<2>(edits[k]), pick(2));
+        }
+        emit(*x, *y, "same edits, different order");
+        // y holds and loses extra edges / labels
+        for (int k = 0; k < 3; ++k) {
+            int i = (int)pick(n), j = (int)pick(n);
+            json before = y->abstractGraph();
+            bool had = before["has"][i][j].get<int>() == 1;
+            if (!had) {
+                add(*y, i, j, 1 + (int)pick(2), false);
+                emit(*x, *y, "one extra edge");
+                y->apply({{"op", "removeEdge"}, {"i", i}, {"j", j}});
+                if (kind == "multi")
+                    y->apply({{"op", "setEdgeMultiplicity"}, {"i", i}, {"j", j}, {"k", 0}});
+                emit(*x, *y, "extra edge removed again");
+            }
+        }
+        // a copy, changed and changed back
+        std::unique_ptr<IObj> z = x->clone();
+        emit(*x, *z, "copy");
+        z->apply({{"op", "removeVertexFromEdgeList"}, {"v", (int)pick(n)}});
+        emit(*x, *z, "copy after removeVertexFromEdgeList");
+        z->assignFrom(*x);
+        emit(*x, *z, "assigned back");
+        // two edges moved at one source: same degrees, different neighbours
+        {
+            std::unique_ptr<IObj> w = x->clone();
+            int s0 = (int)pick(n);
+            json ag = w->abstractGraph();
+            std::vector<int> nb, non;
+            for (int j = 0; j < n; ++j)
+                (ag["has"][s0][j].get<int>() ? nb : non).push_back(j);
+            if (nb.size() >= 2 && non.size() >= 2 && kind != "multi" && kind != "weighted") {
+                for (int t = 0; t < 2; ++t) {
+                    w->apply({{"op", "removeEdge"}, {"i", s0}, {"j", nb[t]}});
+                    add(*w, s0, non[t], 1, false);
+                }
+                emit(*x, *w, "two edges moved at one vertex");
+            }
+        }
+    }
+    std::cout.flush();
+    std::cerr << "SUMMARY " << json({{"mode", "recordpair"}, {"family", facs[famIdx]()->family()}, {"records", records},
+                                      {"pairs_showing_the_same_graph", equalPairs}})
+                                    .dump()
+              << std::endl;
+    return 0;
+}
+
 // ---------------------------------------------------------------- replay
 static int replayPair(const json &r) {
     auto &facs = registry()[r.at("group").get<std::string>()];
@@ -863,6 +998,8 @@ int main(int argc, char **argv) {
         return walkpair(plan);
     if (mode == "record")
         return record(plan);
+    if (mode == "recordpair")
+        return recordpair(plan);
     if (mode == "replay")
         return replay(plan);
     return 2;
